@@ -318,6 +318,11 @@ def driver(cinco, desc, seed, n_traces, length):
                     ev = {"op": "Reset", "n": n, "p": list(path), "k": key}
                 elif r < 0.75:
                     ev = {"op": rng.choice(["Validate", "ValidateCollect"]), "n": n}
+                elif r < 0.79:
+                    other = "c2" if n == "c1" else "c1"
+                    if w.cfgs[other] is None:
+                        continue
+                    ev = {"op": "CopyTree", "n": n, "src": other}
                 else:
                     cands = [(p, k, f) for p, k, f in fields if f["kind"] in ("list", "dict")]
                     if not cands:
